@@ -46,4 +46,8 @@ theorem code_follows_buffer_model : Generated.facts.bufferContract = true := Ins
 
 example : let S : Schema := [{ fields := [{ id := 1, req := .optional, ty := .map (.base .string) (.ptr (.strct 0)) }] }]
     S.ok = true ∧ hasTy S (.strct 0) (.st [.mp false [(.str [65], .nilp)]] []) = true := by decide
+/-- the hand-written model of the encoder and size functions was written from, and validated against, code with exactly this
+    control structure (guards, switches, loops, returns, call sequence): regenerated fingerprint =
+    committed fingerprint of the unchanged tree -/
+theorem model_written_from_this_code : Generated.facts.encoderSkeleton = Skeleton.encoder := Instances.skeleton_encoder
 end Frugal.C04
